@@ -219,6 +219,8 @@ def step10 (cfg : Cfg) (implicit : Bool) (m : M10) (e : Ev) : Except String M10 
   | .ns _ helo tls r =>
     if m.seenTls && !tls then .error "C10 a session created after the upgrade does not see TLS"
     else if implicit && !tls then .error "C10 implicit TLS connection reported as plaintext"
+    else if tls && !implicit && !m.upgraded then
+      .error "C09/C10 a session is told that TLS is active although no handshake has succeeded on this connection"
     else if !tls && !cfg.tlsAvail && false then .ok m
     else if m.upgraded && containsSub helo "inj".b then .error "C10 injected plaintext executed (greeting)"
     else .ok (if r == .ok then { m with tls := tls, seenTls := m.seenTls || tls } else { m with seenTls := m.seenTls || tls })
@@ -235,7 +237,12 @@ def step10 (cfg : Cfg) (implicit : Bool) (m : M10) (e : Ev) : Except String M10 
       if bad then .error "C10 STARTTLS/REQUIRETLS advertised inconsistently with the TLS state"
       else
         let later := if m.greeted then rs else rs.drop 1
-        .ok { m with greeted := m.greeted || !rs.isEmpty, upgraded := m.upgraded || later.any (·.code == 220) }
+        -- a 220 after the greeting: STARTTLS accepted; "550 … Handshake error" right behind it: the upgrade did not happen
+        let up := later.foldl (fun u r =>
+          if r.code == 220 then true
+          else if r.code == 550 && r.lines.any (fun l => containsSub l "Handshake error".b) then false
+          else u) m.upgraded
+        .ok { m with greeted := m.greeted || !rs.isEmpty, upgraded := up }
   | _ => .ok m
 
 def check10 (cfg : Cfg) (implicit : Bool) (evs : List Ev) : List String :=
